@@ -7,6 +7,13 @@ Environments.scale / Environments.impute (incl. lists of statistics).  The oracl
 the fitting window in exact rational arithmetic (fractions.Fraction built from the float inputs; median / mode / the
 repository's linear-interpolation iqr re-derived by definition) and compares every output cell with relative tolerance
 1e-9; the three representations are additionally compared with each other where the statement defines no value.
+
+The sequence a filter reads is retained by the check (as a cache, a materialized environment or the caller would): the
+contexts come in every container coba hands to the filters -- tuples, lists, LazyDense, the SparseDense rows that Densify
+makes out of sparse contexts (built directly and by the real Densify), dicts, LazySparse, also several of them inside
+one sequence -- and the same filter objects / the same environment read the sequence one to three times.  After every
+read the retained sequence must still have the values it had (a filter that writes into its source makes every later
+read, with or without the filter, wrong) and every read has to satisfy the statement on its own.
 """
 import math, itertools
 from fractions import Fraction as F
@@ -18,30 +25,39 @@ RULE  = ("seeded tables (1-12 interactions x 1-5 feature columns of kind int/flo
          "mixed, missing pattern none/None/NaN/first-row/whole-window/outside-window) x filter configuration (Scale: "
          "shift in {number,min,mean,median,med} x scale in {number,minmax,std,iqr,maxabs}; Impute: stat or list of "
          "stats x indicator) x using in {None,1,<N,=N,>N} x entry point (filter / Environments) x representation "
-         "(dense tuple/list/LazyDense, sparse dict/LazySparse with zeros omitted, scalar); one oracle evaluation per "
-         "(case, representation); distinct & non-trivial = distinct (filter, configuration classes, using class, "
-         "representation, entry point, sorted column-feature signature) where at least one cell must change")
-PLAN  = {"quick":    {"shards": 16, "cases": 64000,   "timeout": 600,  "budget_s": 70},
+         "(dense tuple/list/LazyDense/SparseDense as built by Densify/several container types in one sequence, sparse "
+         "dict/LazySparse/both in one sequence with zeros omitted, scalar) x 1-3 reads of the retained sequence through "
+         "the same filter objects; one oracle evaluation per (case, representation); distinct & non-trivial = distinct "
+         "(filter, configuration classes, using class, representation, container, entry point, sorted column-feature "
+         "signature) where at least one cell must change")
+PLAN  = {"quick":    {"shards": 16, "cases": 44000,   "timeout": 600,  "budget_s": 70},
          "thorough": {"shards": 16, "cases": 3200000, "timeout": 3000, "budget_s": 780}}
 REQUIRED = ["oracle.scale.cell", "oracle.scale.untouched-column", "oracle.scale.degenerate-column",
             "oracle.impute.imputed-cell", "oracle.impute.unchanged-cell", "oracle.impute.indicator",
             "oracle.other-fields", "oracle.xrep.dense-sparse", "oracle.xrep.dense-scalar",
             "oracle.envs.scale", "oracle.envs.impute", "oracle.envs.impute.list",
             "reach.none-first-row", "reach.nan-in-window", "reach.sparse-key-absent-from-first-row",
-            "reach.using-shorter", "reach.using-longer", "reach.using-1", "oracle.shared-filter-object"]
+            "reach.using-shorter", "reach.using-longer", "reach.using-1", "oracle.shared-filter-object",
+            "oracle.source-untouched", "oracle.reread", "reach.densified-context", "reach.densified-context-reread",
+            "reach.mixed-containers.dense", "reach.mixed-containers.sparse", "reach.impute.nan-in-window"]
 ASSUMPTIONS = [
     "degenerate denominators (exact value < 1e-5; the code switches at 1e-6): only 'no exception, finite numbers, "
     "missing cells stay missing, non-numeric untouched, representations agree' is asserted",
     "a statistic that is undefined on the window (std of fewer than two values) and, for Scale, a window without a "
     "single non-missing value (even when shift and scale are given numbers: such a window does not tell whether the "
-    "feature is numeric, and the unchanged code treats scalar and dense features differently there) define no output: "
+    "feature is numeric, and coba deliberately scales only features its fitting window shows to be numeric) define no output: "
     "only 'no exception, missing cells stay missing, numbers stay finite numbers' is asserted for that column",
     "sparse semantics: an absent key is the number 0 (not a missing value); only numeric zeros are ever omitted",
     "Scale with shift != 0 on sparse contexts is documented to raise CobaException: accepted, nothing else asserted",
-    "Impute: a missing value is None (NaN is not generated for Impute: the code and the docstring disagree on it)",
-    "Impute indicator for a feature that is not imputable (string under mean/median, nothing but missing values in the "
-    "window) may or may not be added: both are accepted; the layout of required indicators (dense: appended in column "
-    "order, sparse: '<key>_is_missing', scalar: [value, flag]) is the one the repository's unit tests pin",
+    "Impute: a missing value is None or NaN (the quantifier lists NaN features, the docstring of Impute names nan as "
+    "the missing value and Scale ignores both); NaN is only put into numeric columns",
+    "Impute indicator: required for every feature that has a missing value in the window, imputable or not (the "
+    "statement's wording, and what the repository's unit tests pin for scalar contexts), once per filter of a list of "
+    "statistics that still sees the missing values; the layout (dense: appended in feature order, sparse: "
+    "'<key>_is_missing', scalar: [value, flag]) is the one the repository's unit tests pin",
+    "source-untouched: the retained input sequence is compared by value (1 and 1.0 are the same value; evaluating a "
+    "lazy row is not a change); a re-read that gives cell for cell what the judged first read gave is not judged again",
+    "one sequence never mixes dense, sparse and scalar contexts (only container types of one kind)",
     "mode with ties: any modal value is accepted",
     "columns are type-homogeneous apart from missing cells; 'mixed' columns (a string inside the fitting window of an "
     "otherwise numeric column) are only given to Scale with a statistic-based shift or scale and must stay untouched",
@@ -58,7 +74,8 @@ def _dec(c):
     return c
 def _is_nan(v): return isinstance(v, float) and v != v
 def _is_num(v): return isinstance(v, (int, float)) and not isinstance(v, bool) and v == v
-def _is_missing_scale(v): return v is None or _is_nan(v)
+def _is_missing(v): return v is None or _is_nan(v)
+_is_missing_scale = _is_missing
 
 # ====================================================================================================== reference
 def ref_median(vals):
@@ -101,7 +118,7 @@ def scale_plan(col, nwin, shift, scale):
 def impute_stat(col, nwin, stat):
     """('none',) when the statistic is undefined / the feature is not imputable, else ('num', Fraction) for mean/median,
     ('any', [acceptable values]) for mode"""
-    W = [v for v in col[:nwin] if v is not None]
+    W = [v for v in col[:nwin] if not _is_missing(v)]
     if not W: return ("none",)
     if stat in ("mean", "median"):
         if any(isinstance(v, str) for v in col): return ("none",)
@@ -111,15 +128,15 @@ def impute_stat(col, nwin, stat):
     return ("any", [v for v, n in cnt.items() if n == top])
 
 def impute_plan(col, nwin, stats, indicator):
-    """-> (deciding stat result, required indicator?, number of optional indicators)"""
-    miss_win = any(v is None for v in col[:nwin])
-    optional = 0
-    for st in stats:
+    """-> (deciding stat result, stages (filters applied in order) that have to add an indicator for this feature).
+    The feature has missing values in the window of every stage up to and including the one whose statistic is
+    defined (that one replaces them all); when no statistic is defined it keeps them through all stages."""
+    miss_win = any(_is_missing(v) for v in col[:nwin])
+    for s, st in enumerate(stats):
         r = impute_stat(col, nwin, st)
         if r[0] != "none":
-            return r, bool(indicator and miss_win), optional
-        if indicator and miss_win: optional += 1
-    return ("none",), False, optional
+            return r, (list(range(s + 1)) if indicator and miss_win else [])
+    return ("none",), (list(range(len(stats))) if indicator and miss_win else [])
 
 # ====================================================================================================== generator
 INTS   = [0, 0, 0, 1, 1, 2, 3, 5, -1, -4, 7, 10]
@@ -148,7 +165,8 @@ def _gen_column(rng, n, nwin, filt, allow_mixed):
     # missing pattern
     m = rng.random()
     miss_vals = [None]
-    if filt == "scale" and kind != "str": miss_vals = rng.choice([[None], ["nan"], [None, "nan"]])
+    if kind != "str":                                               # NaN is a missing value for both filters
+        miss_vals = rng.choice([[None], ["nan"], [None, "nan"]] if filt == "scale" else [[None], [None], ["nan"], [None, "nan"]])
     if m < .35: pass
     elif m < .60:                                                   # scattered
         for i in range(n):
@@ -171,6 +189,7 @@ def _gen_column(rng, n, nwin, filt, allow_mixed):
 SHIFTS = [0, 0, 0, 2, -1.5, "min", "min", "mean", "mean", "median", "median", "med"]
 SCALES = [1, 0.5, 2, -3, "minmax", "minmax", "std", "std", "iqr", "iqr", "maxabs", "maxabs"]
 STATS  = ["mean", "median", "mode"]
+DENSE_ROW_KINDS = ["tuple", "list", "lazy", "sparsedense"]
 
 def gen_case(rng):
     filt = "scale" if rng.random() < .55 else "impute"
@@ -198,8 +217,14 @@ def gen_case(rng):
     p_keep = rng.choice([0, 0, .3])
     spec["keep_zero"] = [[rng.random() < p_keep for _ in range(ncols)] for _ in range(n)]
     spec["keys"] = rng.choice(["str", "int"])
-    spec["dense_as"]  = rng.choice(["tuple", "list", "lazy", "lazy-callable"])
-    spec["sparse_as"] = rng.choice(["dict", "dict", "lazy"])
+    # the container of a context: one type for the whole sequence or ("mixed") a type chosen per interaction;
+    # sparsedense / densify = the dense rows coba's Densify makes out of sparse contexts (built directly / by the filter)
+    spec["dense_as"]  = rng.choice(["tuple", "list", "lazy", "lazy-callable", "sparsedense", "densify", "mixed", "mixed"])
+    spec["sparse_as"] = rng.choice(["dict", "dict", "lazy", "mixed"])
+    spec["dense_rows"]  = [rng.choice(DENSE_ROW_KINDS) for _ in range(n)]
+    spec["sparse_rows"] = [rng.choice(["dict", "lazy"]) for _ in range(n)]
+    # how often the (retained) input sequence is read through the same filter object / environment
+    spec["reads"] = rng.choice([1, 1, 1, 1, 1, 1, 2, 2, 2, 3])
     spec["scalar_col"] = rng.randrange(ncols)
     spec["ikind"] = rng.choice(["sim", "log"])
     spec["extra"] = rng.random() < .3
@@ -212,26 +237,42 @@ def gen_case(rng):
 # ====================================================================================================== running coba
 def _key(spec, j): return f"k{j}" if spec["keys"] == "str" else j
 
+def _omitted(spec, i, j, v): return _is_num(v) and v == 0 and not spec["keep_zero"][i][j]
+
 def _contexts(spec, rep, table):
+    """-> (contexts, perm): perm[j] = position of feature column j inside a dense context (None = identity)"""
     if rep == "dense":
         from coba.pipes import LazyDense
-        how = spec["dense_as"]
-        if how == "tuple": return [tuple(r) for r in table]
-        if how == "list":  return [list(r) for r in table]
-        if how == "lazy":  return [LazyDense(tuple(r)) for r in table]
-        return [LazyDense(lambda r=r: list(r)) for r in table]
+        from coba.pipes.rows import SparseDense
+        how = spec["dense_as"]; ncols = len(table[0])
+        if how == "densify":
+            # the real Densify over sparse contexts (zeros omitted); its lookup table decides where a key ends up
+            from coba.environments.filters import Densify
+            f = Densify(n_feats=ncols, method="lookup")
+            src = [{"context": {f"k{j}": v for j, v in enumerate(r) if not _omitted(spec, i, j, v)}} for i, r in enumerate(table)]
+            out = [o["context"] for o in f.filter(src)]
+            pos = {j: f._lookup[f"k{j}"] for j in range(ncols) if f"k{j}" in f._lookup}
+            free = [p for p in range(ncols) if p not in pos.values()]      # never-written positions: columns of zeros
+            perm = [pos[j] if j in pos else free.pop(0) for j in range(ncols)]
+            return out, perm
+        def one(kind, i, r):
+            if kind == "tuple": return tuple(r)
+            if kind == "list":  return list(r)
+            if kind == "lazy":  return LazyDense(tuple(r))
+            if kind == "sparsedense": return SparseDense({j: v for j, v in enumerate(r) if not _omitted(spec, i, j, v)}, len(r))
+            return LazyDense(lambda r=r: list(r))
+        kinds = spec.get("dense_rows") if how == "mixed" else None
+        return [one(kinds[i] if kinds else how, i, r) for i, r in enumerate(table)], None
     if rep == "sparse":
         from coba.pipes import LazySparse
         out = []
+        kinds = spec.get("sparse_rows") if spec["sparse_as"] == "mixed" else None
         for i, r in enumerate(table):
-            d = {}
-            for j, v in enumerate(r):
-                if _is_num(v) and v == 0 and not spec["keep_zero"][i][j]: continue
-                d[_key(spec, j)] = v
-            out.append(LazySparse(d) if spec["sparse_as"] == "lazy" else d)
-        return out
+            d = {_key(spec, j): v for j, v in enumerate(r) if not _omitted(spec, i, j, v)}
+            out.append(LazySparse(d) if (kinds[i] if kinds else spec["sparse_as"]) == "lazy" else d)
+        return out, None
     if rep == "scalar":
-        return [r[spec["scalar_col"]] for r in table]
+        return [r[spec["scalar_col"]] for r in table], None
     raise ValueError(rep)
 
 def _interactions(spec, contexts):
@@ -255,10 +296,11 @@ def _make_env_class():
     return _ListEnv
 _ENVCLS = None
 
-def _apply(spec, interactions, decoy=None):
-    """runs the real code; returns the list of output interactions.  With a decoy (another sequence of the same layout
-    but other values) the SAME filter object / Environments call first handles the decoy: the statistics applied to
-    `interactions` must still be those of its own fitting window."""
+def _build(spec, interactions, decoy=None):
+    """-> read(): runs the real code over `interactions` and returns the list of output interactions; every call reads
+    the same retained input sequence through the same filter objects / the same environment again.  With a decoy
+    (another sequence of the same layout but other values) the SAME filter object / Environments call first handles the
+    decoy: the statistics applied to `interactions` must still be those of its own fitting window."""
     from coba.environments.filters import Scale, Impute
     global _ENVCLS
     if spec["via"] == "filter":
@@ -267,16 +309,19 @@ def _apply(spec, interactions, decoy=None):
             if decoy is not None:
                 try: list(f.filter(decoy))
                 except Exception: pass
-            return list(f.filter(interactions))
+            return lambda: list(f.filter(interactions))
         stats = spec["stats"] if isinstance(spec["stats"], list) else [spec["stats"]]
-        items, ditems = interactions, decoy
-        for st in stats:                                   # the documented meaning of a list: applied in order
-            f = Impute(st, spec["indicator"], spec["using"])
-            if ditems is not None:
-                try: ditems = list(f.filter(ditems))
-                except Exception: ditems = None
-            items = list(f.filter(items))
-        return items
+        fs = [Impute(st, spec["indicator"], spec["using"]) for st in stats]
+        ditems = decoy
+        for f in fs:
+            if ditems is None: break
+            try: ditems = list(f.filter(ditems))
+            except Exception: ditems = None
+        def read():
+            items = interactions
+            for f in fs: items = list(f.filter(items))     # the documented meaning of a list: applied in order
+            return items
+        return read
     from coba.environments import Environments
     if _ENVCLS is None: _ENVCLS = _make_env_class()
     envs = Environments(_ENVCLS(interactions)) if decoy is None else Environments(_ENVCLS(decoy), _ENVCLS(interactions))
@@ -289,7 +334,7 @@ def _apply(spec, interactions, decoy=None):
     if decoy is not None:
         try: list(envs[0].read())
         except Exception: pass
-    return list(envs[-1].read())
+    return lambda: list(envs[-1].read())
 
 class _Oracle(Exception):
     def __init__(self, mode, what): self.mode, self.what = mode, what
@@ -307,7 +352,7 @@ def _same_cell(got, orig):
     if isinstance(orig, str): return isinstance(got, str) and got == orig
     return _is_num(got) and got == orig
 
-def _get_rows(spec, rep, out_contexts, ncols):
+def _get_rows(spec, rep, out_contexts, ncols, perm=None):
     """-> per row: (cells[list of ncols values], extras) where extras is a list (dense/scalar: appended values,
     sparse: dict of the keys that are not feature keys); raises _Oracle on a malformed context"""
     rows = []
@@ -316,7 +361,7 @@ def _get_rows(spec, rep, out_contexts, ncols):
             try: vals = list(c)
             except TypeError: raise _Oracle("shape", f"row {i}: dense context became {c!r}")
             if len(vals) < ncols: raise _Oracle("shape", f"row {i}: dense context lost features: {vals!r}")
-            rows.append((vals[:ncols], vals[ncols:]))
+            rows.append(([vals[p] for p in perm] if perm else vals[:ncols], vals[ncols:]))
         elif rep == "sparse":
             try: d = dict(c.items())
             except AttributeError: raise _Oracle("shape", f"row {i}: sparse context became {c!r}")
@@ -351,6 +396,56 @@ def _colfeat(spec, j, nwin, rep):
 
 def _cls(v): return "num" if isinstance(v, (int, float)) else str(v)
 
+def _cell_eq(x, y):
+    if x is None or y is None: return x is None and y is None
+    if _is_nan(x) or _is_nan(y): return _is_nan(x) and _is_nan(y)
+    if _is_num(x) and _is_num(y): return x == y           # (1 and 1.0 are the same value)
+    return type(x) is type(y) and x == y
+
+def _snapshot(rep, interactions):
+    """the value of every context of a sequence (lazy rows are evaluated; that is a read, not a change)"""
+    out = []
+    for it in interactions:
+        c = it["context"]
+        out.append(list(c) if rep == "dense" else dict(c.items()) if rep == "sparse" else c)
+    return out
+
+def _source_diff(rep, before, after, perm, ncols):
+    """-> None or (row, feature column or None, detail)"""
+    for i, (x, y) in enumerate(zip(before, after)):
+        if rep == "dense":
+            if len(x) != len(y): return (i, None, f"{x!r} -> {y!r}")
+            for p, (u, v) in enumerate(zip(x, y)):
+                if not _cell_eq(u, v):
+                    j = (perm.index(p) if perm else p) if p < ncols else None
+                    return (i, j, f"{x!r} -> {y!r}")
+        elif rep == "sparse":
+            if set(x) != set(y): return (i, None, f"{x!r} -> {y!r}")
+            for k in x:
+                if not _cell_eq(x[k], y[k]): return (i, None, f"{x!r} -> {y!r}")
+        elif not _cell_eq(x, y): return (i, 0, f"{x!r} -> {y!r}")
+    return None
+
+def _same_outputs(a, b):
+    """two reads gave the same thing, field for field and cell for cell (then one verdict holds for both)"""
+    if len(a) != len(b): return False
+    for x, y in zip(a, b):
+        if x.keys() != y.keys(): return False
+        for k in x:
+            u, v = x[k], y[k]
+            if k != "context":
+                if not (u == v): return False
+            elif type(u) is not type(v): return False
+            elif isinstance(u, dict):
+                if u.keys() != v.keys() or not all(_cell_eq(u[q], v[q]) for q in u): return False
+            elif isinstance(u, (int, float, str)) or u is None:
+                if not _cell_eq(u, v): return False
+            else:
+                try: lu, lv = list(u), list(v)
+                except TypeError: return False
+                if len(lu) != len(lv) or not all(map(_cell_eq, lu, lv)): return False
+    return True
+
 def _run_rep(spec, rep, ctx=None):
     """one representation through the real filter; -> (violations [(mode, detail, column or None)], outputs per column or None)"""
     def note(name, k=1):
@@ -360,27 +455,61 @@ def _run_rep(spec, rep, ctx=None):
     if rep == "scalar":
         j0 = spec["scalar_col"]; table = [[r[j0]] for r in table]; ncols = 1
     nwin = n if spec["using"] is None else min(spec["using"], n)
-    contexts = _contexts(dict(spec, scalar_col=0) if rep == "scalar" else spec, rep, table)
+    cspec = dict(spec, scalar_col=0) if rep == "scalar" else spec
+    try:
+        contexts, perm = _contexts(cspec, rep, table)
+    except Exception as e:
+        return [(f"raise:{type(e).__name__}", f"while building the contexts: {type(e).__name__}: {e}", None)], None
     inputs = _interactions(spec, contexts)
-    viol = []
+    before = _snapshot(rep, inputs)
+    before_keys = [set(it) for it in inputs]
     expect_raise = rep == "sparse" and spec["filter"] == "scale" and spec["shift"] != 0
     decoy = None
     if spec.get("warm"):
         # the same filter object (or one Environments.scale/impute call over two environments) handles another sequence first
         t2 = [[(c * 3 + 7 if _is_num(c) and not _is_nan(c) else c) for c in r] for r in table]
-        decoy = _interactions(spec, _contexts(dict(spec, scalar_col=0) if rep == "scalar" else spec, rep, t2))
+        decoy = _interactions(spec, _contexts(cspec, rep, t2)[0])
         note("oracle.shared-filter-object")
-    try:
-        outs = _apply(spec, inputs, decoy)
-    except _Oracle as e:
-        return [(e.mode, e.what, None)], None
-    except Exception as e:
-        from coba.exceptions import CobaException
-        if expect_raise and isinstance(e, CobaException):
-            note("oracle.scale.sparse-shift-raises"); return [], None
-        return [(f"raise:{type(e).__name__}", f"{type(e).__name__}: {e}", None)], None
-    if expect_raise: return [], None                     # documented to raise; nothing is specified if it does not
+    reads = 1 if expect_raise else spec.get("reads", 1)
+    read = None; outputs = None
+    for r in range(reads):
+        pre = "" if r == 0 else "reread:"
+        try:
+            if read is None: read = _build(spec, inputs, decoy)
+            outs = read()
+        except _Oracle as e:
+            return [(pre + e.mode, e.what, None)], None
+        except Exception as e:
+            from coba.exceptions import CobaException
+            if expect_raise and isinstance(e, CobaException):
+                note("oracle.scale.sparse-shift-raises"); return [], None
+            return [(f"{pre}raise:{type(e).__name__}", f"{type(e).__name__}: {e}" + (f" (read #{r+1} of the same sequence)" if r else ""), None)], None
+        if expect_raise: return [], None                 # documented to raise; nothing is specified if it does not
+        # -------------------------------------------------------------- the sequence that was read is still what it was:
+        # whoever holds it (a cache, a materialized environment, the caller) reads it again, with or without the filter
+        after_keys = [set(it) for it in inputs]
+        d = None
+        if after_keys != before_keys: d = (0, None, f"fields of the source interactions {before_keys!r} -> {after_keys!r}")
+        else:
+            try:
+                after = _snapshot(rep, inputs)
+                # (cells that are the very same objects / equal values: nothing was written)
+                d = None if after == before else _source_diff(rep, before, after, perm, ncols)
+            except Exception as e: d = (0, None, f"the source contexts cannot be read any more: {type(e).__name__}: {e}")
+        note("oracle.source-untouched")
+        if d: return [("source-changed", f"source row {d[0]} after read #{r+1}: {d[2]}", d[1])], None
+        if r:
+            note("oracle.reread")
+            if _same_outputs(first, outs): continue      # cell for cell what the judged first read gave
+        viol, outputs = _judge(spec, rep, table, n, ncols, nwin, inputs, outs, perm, note if r == 0 else (lambda *a: None))
+        first = outs
+        if viol:
+            return [(pre + m, (f"read #{r+1} of the same sequence: " if r else "") + det, col) for m, det, col in viol], None
+    return [], outputs
 
+def _judge(spec, rep, table, n, ncols, nwin, inputs, outs, perm, note):
+    """the statement's demands on one read; -> (violations [(mode, detail, column or None)], outputs per column or None)"""
+    viol = []
     if len(outs) != n: return [("lost-or-extra-interactions", f"{n} interactions in, {len(outs)} out", None)], None
     # ------------------------------------------------------------------ everything but the context is left alone
     for i, (a, b) in enumerate(zip(inputs, outs)):
@@ -393,7 +522,7 @@ def _run_rep(spec, rep, ctx=None):
     note("oracle.other-fields")
     if viol: return viol, None
     try:
-        rows = _get_rows(spec if rep != "scalar" else dict(spec, scalar_col=0), rep, [o["context"] for o in outs], ncols)
+        rows = _get_rows(spec if rep != "scalar" else dict(spec, scalar_col=0), rep, [o["context"] for o in outs], ncols, perm)
     except _Oracle as e:
         return [(e.mode, e.what, None)], None
 
@@ -438,31 +567,27 @@ def _run_rep(spec, rep, ctx=None):
             note("oracle.scale.cell", k)
     else:
         stats = spec["stats"] if isinstance(spec["stats"], list) else [spec["stats"]]
-        ind_req, ind_opt = [], []                  # columns (in column order per stage is implied by sorting on (stage,col))
+        ind_req = []                               # (stage, column): appended stage by stage, in column order within a stage
         for j in range(ncols):
             col = [r[j] for r in table]
             got = [rows[i][0][j] for i in range(n)]
-            res, required, optional = impute_plan(col, nwin, stats, spec["indicator"])
+            res, ind_stages = impute_plan(col, nwin, stats, spec["indicator"])
             outputs[j] = ("any-tie" if res[0] == "any" and len(res[1]) > 1 else res[0], got)
-            # which stage decides this column (for the order of indicators)
-            stage = next((s for s, st in enumerate(stats) if impute_stat(col, nwin, st)[0] != "none"), len(stats))
-            if required: ind_req.append((stage, j))
-            if spec["indicator"] and any(v is None for v in col[:nwin]):
-                ind_opt += [(s, j) for s in range(stage)]
+            ind_req += [(s, j) for s in ind_stages]
             bad = None; k_imp = k_same = 0
             for i in range(n):
-                if col[i] is not None:
+                if not _is_missing(col[i]):
                     k_same += 1
                     if not _same_cell(got[i], col[i]): bad = (i, "non-missing-changed", f"{col[i]!r} -> {got[i]!r}"); break
                 elif res[0] == "num":
                     k_imp += 1
                     exp = float(res[1])
                     if not _close(got[i], exp, max([abs(v) for v in col if _is_num(v)] or [0])):
-                        bad = (i, "not-imputed" if got[i] is None else "wrong-value", f"None -> {got[i]!r}, expected {exp!r}"); break
+                        bad = (i, "not-imputed" if _is_missing(got[i]) else "wrong-value", f"{col[i]!r} -> {got[i]!r}, expected {exp!r}"); break
                 elif res[0] == "any":
                     k_imp += 1
                     if not any(_same_cell(got[i], a) for a in res[1]):
-                        bad = (i, "not-imputed" if got[i] is None else "wrong-value", f"None -> {got[i]!r}, expected one of {res[1]!r}"); break
+                        bad = (i, "not-imputed" if _is_missing(got[i]) else "wrong-value", f"{col[i]!r} -> {got[i]!r}, expected one of {res[1]!r}"); break
                 elif "mode" not in stats and any(isinstance(v, str) for v in col):
                     # a string feature is not imputable by mean / median: it is a non-numeric feature and stays as it is
                     k_same += 1
@@ -471,18 +596,17 @@ def _run_rep(spec, rep, ctx=None):
             if res[0] == "none": note("oracle.impute.undefined-statistic-column")
             if bad: viol.append((bad[1], f"column {j} row {bad[0]}: {bad[2]}; window {col[:nwin]!r} stats {stats}", j))
         # ---------------------------------------------------------------- indicators
-        miss = {j: [1 if table[i][j] is None else 0 for i in range(n)] for j in range(ncols)}
+        miss = {j: [1 if _is_missing(table[i][j]) else 0 for i in range(n)] for j in range(ncols)}
         note("oracle.impute.indicator")
         if rep == "sparse":
             req = {f"{_key(spec, j)}_is_missing": j for _, j in ind_req}
-            opt = {f"{_key(spec, j)}_is_missing": j for _, j in ind_opt}
             for i, (_, extras) in enumerate(rows):
                 e = None
                 for k in req:
                     if k not in extras: e = ("indicator-absent", f"row {i}: key {k!r} missing from {extras!r}", req[k]); break
                 if not e:
                     for k, v in extras.items():
-                        j = req.get(k, opt.get(k))
+                        j = req.get(k)
                         if j is None: e = ("indicator-extra", f"row {i}: unexpected key {k!r}={v!r}", None); break
                         if not (_is_num(v) and v == miss[j][i]):
                             e = ("indicator-wrong", f"row {i}: {k!r}={v!r}, feature was {'missing' if miss[j][i] else 'present'}", j); break
@@ -494,18 +618,14 @@ def _run_rep(spec, rep, ctx=None):
             else:
                 w = widths.pop()
                 gotcols = [[rows[i][1][t] for i in range(n)] for t in range(w)]
-                ok = False
-                need = w - len(ind_req)
-                if 0 <= need <= len(ind_opt):
-                    for sub in itertools.combinations(ind_opt, need):
-                        order = sorted(ind_req + list(sub))
-                        if all(all(_is_num(g) and g == m for g, m in zip(gotcols[t], miss[j])) for t, (_, j) in enumerate(order)):
-                            ok = True; break
-                if not ok:
-                    mode = ("indicator-absent" if w < len(ind_req) else "indicator-extra" if need > len(ind_opt) else "indicator-wrong")
-                    culprit = ind_req[0][1] if ind_req and mode == "indicator-absent" else None
-                    viol.append((mode, f"indicator features {gotcols!r}; required for columns {[j for _, j in sorted(ind_req)]} "
-                                       f"(optional {[j for _, j in sorted(ind_opt)]}), missingness {miss}", culprit))
+                order = sorted(ind_req, key=lambda sj: (sj[0], perm[sj[1]] if perm else sj[1]))    # in the order of the features inside the context
+                if w != len(order) or not all(all(_is_num(g) and g == m for g, m in zip(gotcols[t], miss[j])) for t, (_, j) in enumerate(order)):
+                    mode = "indicator-absent" if w < len(order) else "indicator-extra" if w > len(order) else "indicator-wrong"
+                    culprit = None
+                    if mode == "indicator-absent":
+                        # the first required indicator that is not where it has to be
+                        culprit = next((j for t, (_, j) in enumerate(order) if t >= w or not all(_is_num(g) and g == m for g, m in zip(gotcols[t], miss[j]))), order[0][1])
+                    viol.append((mode, f"indicator features {gotcols!r}; required for (stage, column) {order}, missingness {miss}", culprit))
     return viol, outputs
 
 # ====================================================================================================== one case
@@ -548,6 +668,16 @@ def _shrink(spec, rep, mode):
         try: return mode in _modes(s, rep)
         except Exception: return False
     s = dict(spec); lab = {}
+    # the container type of the contexts: is one needed, or the mixture of several in one sequence?
+    field, kinds = {"dense": ("dense_as", ["tuple", "list", "lazy", "sparsedense"]), "sparse": ("sparse_as", ["dict", "lazy"])}.get(rep, (None, []))
+    if field:
+        failing = [k for k in kinds if fails(dict(s, **{field: k}))]
+        if len(failing) == len(kinds) or failing[:2] == ["tuple", "list"]: s[field] = failing[0]     # any container
+        elif failing: s[field] = failing[0]; lab["as"] = CONTAINER_NAME[failing[0]]
+        else: lab["as"] = "mixed-containers" if s.get(field) == "mixed" else CONTAINER_NAME.get(s.get(field), s.get(field))
+    if s.get("reads", 1) > 2:
+        t = dict(s, reads=2)
+        if fails(t): s = t
     if s["via"] == "envs":
         t = dict(s, via="filter")
         if fails(t): s = t
@@ -565,17 +695,31 @@ def _shrink(spec, rep, mode):
     if s["filter"] == "impute" and s["indicator"]:
         t = dict(s, indicator=False)
         if fails(t): s = t
+    if s["filter"] == "impute" and not isinstance(s["stats"], list):
+        # the statistic is irrelevant ('*') when the failure shows under each of them
+        if all(fails(dict(s, stats=st)) for st in STATS if st != s["stats"]): lab["stat"] = "*"
     if s["filter"] == "scale":
         # shift / scale are irrelevant ('*') when the failure survives replacing them by a value of the other class
         # (a given number <-> a statistic); sparse contexts only admit shift 0
+        # (a failure that is about what gets written, and where, needs alternatives that still change the values)
+        writes = mode == "source-changed" or mode.startswith("reread:")
+        given = lambda v: isinstance(v, (int, float))
         if rep != "sparse":
-            for alt in ((0,) if s["shift"] != 0 else ("mean", "min")):
+            for alt in ((("mean", "min") if given(s["shift"]) else (2,)) if writes else (0,) if s["shift"] != 0 else ("mean", "min")):
                 t = dict(s, shift=alt)
                 if fails(t): s = t; lab["shift"] = "*"; break
         else: lab["shift"] = "*"
-        for alt in ((1,) if s["scale"] != 1 else ("minmax", "std")):
+        for alt in ((("minmax", "maxabs") if given(s["scale"]) else (0.5,)) if writes else (1,) if s["scale"] != 1 else ("minmax", "std")):
             t = dict(s, scale=alt)
             if fails(t): s = t; lab["scale"] = "*"; break
+    if len(s["table"][0]) == 1 and (mode.split(":")[0] in ("raise", "reread", "source-changed", "shape")):
+        # the content of the column is irrelevant ('*') when a plain column of distinct positive integers fails the same way
+        # (Impute only writes where something is missing: there the plain column has its last value missing)
+        plain = [[i + 1] for i in range(s["n"])]
+        cands = [plain] + ([plain[:-1] + [[None]]] if s["filter"] == "impute" and (mode == "source-changed" or mode.startswith("reread:")) else [])
+        for tab in cands:
+            t = dict(s, table=tab, kinds=["int"])
+            if fails(t): s = t; lab["col"] = "*"; break
     if len(s["table"][0]) == 1:
         if s["using"] is not None:
             t = dict(s, using=None)
@@ -594,7 +738,9 @@ def _shrink(spec, rep, mode):
             if fails(t): s = t
     return s, lab
 
-FEATURE_PRIORITY = ["nan-first", "nan-later-in-window", "none-first", "none-later-in-window", "window-all-missing",
+CONTAINER_NAME = {"tuple": "tuple", "list": "list", "lazy": "LazyDense", "lazy-callable": "LazyDense", "sparsedense": "SparseDense",
+                  "densify": "SparseDense", "dict": "dict"}
+FEATURE_PRIORITY = ["nan-first", "nan-later-in-window", "statistic-undefined", "none-first", "none-later-in-window", "window-all-missing",
                     "key-absent-from-window", "key-absent-from-first-row", "nan-after-window", "none-after-window"]
 
 def _signature(spec, rep, mode, col):
@@ -611,8 +757,13 @@ def _signature(spec, rep, mode, col):
     if j is None: feats = "several-columns"
     else:
         f = _colfeat(s, j, nwin, rep)
+        if s["filter"] == "impute":
+            stats = s["stats"] if isinstance(s["stats"], list) else [s["stats"]]
+            colv = [_dec(r[j]) for r in s["table"]]
+            if any(_is_missing(v) for v in colv[:nwin]) and impute_plan(colv, nwin, stats, False)[0][0] == "none":
+                f.append("statistic-undefined")            # missing values in the window that no statistic can replace
         special = [x for x in FEATURE_PRIORITY if x in f]
-        feats = f[0] + ("+" + {"nan-first": "nan-in-window", "nan-later-in-window": "nan-in-window"}.get(special[0], special[0]) if special else "")
+        feats = "*" if lab.get("col") else f[0] + ("+" + {"nan-first": "nan-in-window", "nan-later-in-window": "nan-in-window"}.get(special[0], special[0]) if special else "")
     # which representations show the same failure mode on the reduced case
     where = rep
     if mode != "differs-from-dense" and j is not None and len(s["table"][0]) == 1:
@@ -623,8 +774,9 @@ def _signature(spec, rep, mode, col):
                 if r == rep or mode in _modes(s, r): failing.append(r)
             except Exception: pass
         where = "all-representations" if len(failing) >= (2 if (s["filter"] == "scale" and s["shift"] != 0) else 3) else "+".join(failing)
+    if lab.get("as"): where += f"[{'LazySparse' if (rep == 'sparse' and lab['as'] == 'LazyDense') else lab['as']}]"
     if s["filter"] == "scale":
-        if "+" in feats or feats == "several-columns" or not feats.startswith("num"):
+        if feats != "*" and ("+" in feats or feats == "several-columns" or not feats.startswith("num")):
             # a special column triggers it: only say whether statistics are involved at all
             cfg = "given-numbers" if isinstance(s["shift"], (int, float)) and isinstance(s["scale"], (int, float)) else "statistics"
         else:
@@ -633,7 +785,7 @@ def _signature(spec, rep, mode, col):
             cfg = f"shift={lab.get('shift') or norm(s['shift'])}/scale={lab.get('scale') or norm(s['scale'])}"
     else:
         st = s["stats"]
-        cfg = f"stat={'list' if isinstance(st, list) and len(st) > 1 else st[0] if isinstance(st, list) else st}" + ("/indicator" if s["indicator"] else "")
+        cfg = f"stat={'list' if isinstance(st, list) and len(st) > 1 else st[0] if isinstance(st, list) else lab.get('stat') or st}" + ("/indicator" if s["indicator"] else "")
     return f"{s['filter']}/{where}/{cfg}/col={feats}/mode={mode}"
 
 def _reps(spec):
@@ -654,8 +806,16 @@ def check_case(spec, ctx=None):
             ucls = ("none" if spec["using"] is None else "one" if spec["using"] == 1 else "shorter" if spec["using"] < n
                     else "equal" if spec["using"] == n else "longer")
             nontrivial = bool(outputs) and any(kind in ("affine", "num", "any", "any-tie") for kind, _ in outputs.values())
-            ctx.case((spec["filter"], cfg, ucls, rep, spec["via"], feats), nontrivial=nontrivial)
+            cont = spec.get("dense_as") if rep == "dense" else spec.get("sparse_as") if rep == "sparse" else "value"
+            ctx.case((spec["filter"], cfg, ucls, rep, cont, spec["via"], feats), nontrivial=nontrivial)
             if outputs is not None:
+                if rep == "dense" and (cont in ("sparsedense", "densify") or (cont == "mixed" and "sparsedense" in spec["dense_rows"])):
+                    ctx.count("reach.densified-context")
+                    if spec.get("reads", 1) > 1: ctx.count("reach.densified-context-reread")
+                if cont == "mixed" and len(set(spec["dense_rows" if rep == "dense" else "sparse_rows"])) > 1:
+                    ctx.count("reach.mixed-containers." + rep)
+                if spec["filter"] == "impute" and any("nan-first" in f or "nan-later-in-window" in f for f in feats):
+                    ctx.count("reach.impute.nan-in-window")
                 if spec["via"] == "envs":
                     ctx.count("oracle.envs." + spec["filter"])
                     if spec["filter"] == "impute" and isinstance(spec["stats"], list) and len(spec["stats"]) > 1: ctx.count("oracle.envs.impute.list")
